@@ -10,6 +10,8 @@ rejected request emits no start, stop or state change.'
 The FSM state is a symbolic member of SupvisorsStates: every contract below is proved for the nine states at once.
 """
 from pyvc.spec import *
+
+GROUP = 'rpc'   # contracts of one group use each other's contracts at call sites (pyvc/hooks.py contract_for_call)
 from supervisor.options import split_namespec
 
 BAD_STATE = SupvisorsFaults.BAD_SUPVISORS_STATE.value
